@@ -95,7 +95,35 @@ class Report:
             return False
         return True
 
+    def fields(self, prog, spec):
+        """Rules that identify a struct member by its name state it here: spec = {unit: {record: [member names]}}.
+        A member that no longer exists under that name (renamed, moved to another struct) is a vanished anchor:
+        the run ends as analysis-broken, whatever the rules then made of the code -- never as a violation."""
+        ok = True
+        for up, recs in spec.items():
+            u = prog.units.get(up)
+            if u is None:
+                continue
+            for rec, names in recs.items():
+                r = u.records.get(rec)
+                if r is None:
+                    self.defer_broken("struct %s is no longer defined in %s (renamed?)" % (rec, up))
+                    self.renamed = getattr(self, "renamed", 0) + 1
+                    ok = False
+                    continue
+                have = set(f["name"] for f in r.get("fields", []))
+                missing = [n for n in names if n not in have]
+                if missing:
+                    self.defer_broken("struct %s in %s no longer has the member(s) %s the rules are anchored in (renamed?)" % (rec, up, ", ".join(missing)))
+                    self.renamed = getattr(self, "renamed", 0) + 1
+                    ok = False
+        return ok
+
     def add_stats(self, prog):
+        from . import anchors
+        if not anchors.check(self, prog):
+            # the rules would only trip over the missing names: stop here, nothing is claimed
+            raise cdb.AnalysisBroken("; ".join(getattr(self, "deferred", [])))
         s = prog.stats()
         self.configs.append(prog.config.name)
         for k, v in s.items():
